@@ -139,6 +139,13 @@ func (env *Env) eval(e *Expr) SV {
 		return env.ident(e.Name)
 	case "unary":
 		a := env.eval(e.Args[0])
+		if a.T == nil {
+			// about an unknown call record (a callee's own, or no such call on this path)
+			if e.Name == "!" {
+				return SV{T: env.x.freshVar("norecord", SBool), Ty: types.Typ[types.Bool]}
+			}
+			return SV{T: nil, Ty: nil}
+		}
 		if e.Name == "!" {
 			return SV{T: Not(a.T), Ty: a.Ty}
 		}
